@@ -733,6 +733,9 @@ def copyto(dst, src, *args, **kwargs):
     # note that np.copyto is heavily used internally
     # in numpy, and it may be used with fundamental datatypes,
     # so we don't attempt to pass ndarray views to keep generality
+    if isinstance(src, (list, tuple)) and any(hasattr(_, "units") for _ in src):
+        # a Python sequence of quantities has no .units of its own
+        src = unyt_array(src)
     where = kwargs.get("where", args[1] if len(args) > 1 else True)
     if (
         where is not True
